@@ -181,4 +181,26 @@ example : parseLines (serialize [([], [[73, 68], [68, 79, 67]]), ([[35]], [[49],
 /-- a tab inside a field is what breaks it -/
 example : split (join [[49], [97, 9, 98]]) ≠ [[49], [97, 9, 98]] := by decide
 
+/-! ### `@key:value` lines -/
+
+theorem splitColon_append : ∀ (k v : List Nat), colon ∉ k → splitColon (k ++ colon :: v) = some (k, v)
+  | [], v, _ => by simp [splitColon]
+  | c :: r, v, h => by
+    have hc : c ≠ colon := fun e => h (by rw [e]; exact List.mem_cons_self)
+    have hr : colon ∉ r := fun e => h (List.mem_cons_of_mem _ e)
+    simp [splitColon, hc, splitColon_append r v hr]
+
+/-- **C13, simple meta data**: a key without a colon and without outer white space and a value without outer
+white space, written as `@key:value`, are read back exactly (the line is dispatched to the meta branch) -/
+theorem C13_meta_line (k v : List Nat) (hk : colon ∉ k) (htk : Trim k) (htv : Trim v) :
+    kind (metaLine k v) = .metaL ∧ parseMeta (metaLine k v) = some (k, v) := by
+  constructor
+  · simp [kind, metaLine, at_, hash]
+  · have e : metaLine k v = at_ :: (k ++ colon :: v) := by simp [metaLine]
+    rw [e]
+    simp only [parseMeta, splitColon_append k v hk, Option.map_some, strip_id k htk, strip_id v htv]
+
+/-- the hypothesis on the key is needed: a key containing a colon is cut at it -/
+example : parseMeta (metaLine [97, 58, 98] [99]) = some ([97], [98, 58, 99]) := by decide
+
 end Verif.Line
